@@ -12,7 +12,7 @@ import (
 
 func init() {
 	core.Register(&core.Property{
-		ID: "C13",
+		ID:   "C13",
 		Rule: "all 56 band configurations x 7 protocol versions (6 known + \"zz\") x 8 regional-parameter revisions (7 known + \"zz\") x data-rate index -1..16, swept completely in both tiers through GetMaxPayloadSizeForDataRateIndex and compared with a two-level fallback model over the hook snapshot; closure of every data-rate index the band hands out (channel ranges, RX1 results, RX2 default, enabled uplink data-rates) under GetDataRate; GetDataRateIndex(dir, GetDataRate(i)) == i for every defined index and supported direction (any index with identical parameters in that direction accepted); size relations (M = N+8, N <= 242, repeater <= non-repeater, non-decreasing as SF decreases at equal bandwidth among data-rates sharing a direction; (0,0) is the N/A cell); reference values (channel frequencies and DR ranges, RX2, DR definitions, TX-power steps) from harness/spec/regional.go. Distinct = (config, version, revision, DR) cells.",
 		Assumptions: []string{
 			"(0,0) max-payload cells denote the Regional Parameters' 'N/A' (AS923/AU915/CN470 under dwell-time) and are skipped",
@@ -27,10 +27,10 @@ var c13Versions = []string{band.LoRaWAN_1_0_0, band.LoRaWAN_1_0_1, band.LoRaWAN_
 var c13Revisions = []string{band.RegParamRevA, band.RegParamRevB, band.RegParamRevC, band.RegParamRevRP002_1_0_0, band.RegParamRevRP002_1_0_1, band.RegParamRevRP002_1_0_2, band.RegParamRevRP002_1_0_3, "zz"}
 
 type sizeKey struct {
-	name        string
-	dwell       bool
-	ver, rev    string
-	dr          int
+	name     string
+	dwell    bool
+	ver, rev string
+	dr       int
 }
 
 func runC13(c *core.Ctx) {
